@@ -160,6 +160,7 @@ func init() {
 			checkC04Typed(c, budget(c.Tier, 800, 30000))
 			checkIniAddOption(c, budget(c.Tier, 40, 1000), "C04")
 			checkHelpAfterWidening(c, budget(c.Tier, 60, 1500), "C04")
+			checkC04AddOptionSmoke(c, budget(c.Tier, 80, 3000))
 			checkC04CallbackTypes(c, budget(c.Tier, 200, 4000))
 			checkC04StructTypes(c, budget(c.Tier, 150, 3000))
 		}}
